@@ -211,11 +211,24 @@ def build(t, roe):
     return raw if isinstance(raw, Selector) else Selector(raw, raise_on_error=roe)
 
 
-def run_real(t, v, roe):
-    """observable outcome of the real selector: True / False / Raised / ('BUILD', exc)"""
+def run_real(t, v, roe, cache=None):
+    """observable outcome of the real selector: True / False / Raised / ('BUILD', exc) / 'NON-TERMINATION'.
+    cache (per specification and flag) keeps the built objects of sub-terms so that blame() stays cheap"""
     try:
         with watchdog(2):
-            sel = build(t, roe)
+            if cache is not None and id(t) in cache:
+                sel = cache[id(t)]
+            else:
+                try:
+                    sel = build(t, roe)
+                except Timeout:
+                    raise
+                except Exception as e:
+                    sel = ("BUILD", type(e).__name__, str(e)[:80])
+                if cache is not None:
+                    cache[id(t)] = sel
+            if isinstance(sel, tuple):
+                return sel
             try:
                 return bool(sel(v))
             except Timeout:
@@ -224,8 +237,6 @@ def run_real(t, v, roe):
                 return Raised(e)
     except Timeout:
         return "NON-TERMINATION"
-    except Exception as e:
-        return ("BUILD", type(e).__name__, str(e)[:80])
 
 
 def same(got, exp):
@@ -252,11 +263,11 @@ def children(t):
     return []
 
 
-def blame(t, v, roe):
+def blame(t, v, roe, cache=None):
     """smallest sub-term that disagrees on its own (so that the fid names the construct that is wrong)"""
     for c in children(t):
-        if not same(run_real(c, v, roe), eval_term(c, v, roe)):
-            return blame(c, v, roe)
+        if not same(run_real(c, v, roe, cache), eval_term(c, v, roe)):
+            return blame(c, v, roe, cache)
     return t
 
 
@@ -276,7 +287,7 @@ def mismatch_kind(got, exp, roe):
 
 def check_selector_many(R, t, roe, vis):
     """build once, evaluate on every value; any disagreement is re-examined (and named) by check_selector"""
-    sel = None
+    sel, cache = None, {}
     try:
         with watchdog(2):
             sel = build(t, roe)
@@ -298,7 +309,7 @@ def check_selector_many(R, t, roe, vis):
                 got = "NON-TERMINATION"
             if same(got, eval_term(t, v, roe)):
                 continue
-        if check_selector(R, t, roe, vi) and sel is not None:
+        if check_selector(R, t, roe, vi, cache) and sel is not None:
             R.fail("Selector/result-depends-on-previous-calls", "selector %s raise_on_error=%r on value %r differs between a fresh "
                    "and a used object" % (show(t), roe, VALUES[vi]), {"term": t, "raise_on_error": roe, "value_index": vi})
 
@@ -307,14 +318,16 @@ def has_direct_ctx_child(t):
     return any(c[0] == "ctx" for c in children(t))
 
 
-def check_selector(R, t, roe, vi):
+def check_selector(R, t, roe, vi, cache=None):
     v = VALUES[vi]
     exp = eval_term(t, v, roe)
-    got = run_real(t, v, roe)
+    got = run_real(t, v, roe)                     # always on a freshly built object
     if same(got, exp):
         return True
-    b = blame(t, v, roe)
-    gb, eb = run_real(b, v, roe), eval_term(b, v, roe)
+    b = blame(t, v, roe, cache)
+    gb, eb = run_real(b, v, roe, cache), eval_term(b, v, roe)
+    if same(gb, eb):                              # only a used object of the sub-term agrees; name the whole term
+        b, gb, eb = t, got, exp
     fid = "%s/%s" % (node_kind(b), mismatch_kind(gb, eb, roe))
     if isinstance(gb, tuple) and has_direct_ctx_child(b):
         # the SelectContext works alone (blame would have descended otherwise) but cannot be nested as an object
@@ -1010,7 +1023,7 @@ def body(R):
         sc["bound"] += "; %d key sets accepted" % acc
 
     # ---- 7. GroupBy, random key sets over {a, b, c}, random contexts of nesting <= 3 with one-point variations
-    n_ks = 2500 if th else 250
+    n_ks = 5000 if th else 250
     sc = R.scope("GroupBy.fill vs longest-listed-prefix partition, random",
                  "%d random key sets (1..5 keys of length <= 3 over {a, b, c}, 85%% built properly nested), each accepted one filled "
                  "with 12 random contexts of nesting <= 3 (scalars %r, empty dictionaries) and 3 one-path variations of each"
